@@ -7,7 +7,19 @@ C07 — property theorems for `StateSpace::interpolate` (model: `Model/SpaceInte
   leave unverified is exactly IEEE rounding.  `t s u ∈ [0,1]`; states well-typed and in bounds *as
   coded* (`inBounds`, with the ±eps slack of RealVector/Time bounds).
 
-Helper lemmas live in `Proofs/SpaceInterp*.lean`.  Every theorem is followed by a non-vacuity example.
+Helper lemmas live in `Proofs/SpaceInterp*.lean` (the concrete spaces/states of the examples and
+their side conditions in `Proofs/SpaceInterpExamples.lean`).  Every theorem is followed by
+non-vacuity example(s).
+
+Coverage.  Shape: all spaces.  End points / bounds: all spaces; SO(3) components need exactly-unit
+quaternions (`unitQuats`; `t = 1` gives `±to`, i.e. `equalStates`), Klein components need `u` in
+the exact range `[0, π]` (`kleinRange`; the coded bounds predicate has a ±eps slack and a state with
+`u ∈ [-eps, 0)` crosses the seam at t = 0), Klein `t = 1` on the seam branch needs `0 < to.u < π`.
+Re-parameterisation: rv, so2, time, torus, sphere, compounds, wrapper (NOT discrete, SO(3), Mobius,
+Klein).  Proportional distance: the `geodesic false` spaces (rv, so2, time, torus, weighted
+compounds, wrapper).  SO(3) re-parameterisation / proportional distance (the latter fails as coded
+below the 1e-9 clamp of `arcLength`), Mobius / Klein re-parameterisation: compared against the
+implementation only.
 -/
 open scoped OmplModel.SpaceInterp.RealNum
 attribute [-instance] OmplModel.Num.instOfNat
@@ -288,5 +300,54 @@ theorem interp_one_eq (sp : Space ℝ) (a b : St ℝ) (hsp : noKlein sp = true)
 
 example : eqStates se3 (interpolate se3 se3A se3B 1) se3B = true :=
   interp_one_eq _ _ _ se3_noKlein se3A_wt se3B_wt se3B_inB se3B_unit
+
+/-! ## 7. Klein bottle (fixed wrap), `u` in the exact range `[0, π]` -/
+
+/-- [EX] Klein: the result has `u ∈ [0, π]` and `v ∈ [-π, π)` (so it satisfies the coded bounds and
+again has `u` in the exact range), both branches -/
+theorem klein_interp_inrange (u1 v1 u2 v2 t : ℝ) (hu1 : 0 ≤ u1 ∧ u1 ≤ π) (hu2 : 0 ≤ u2 ∧ u2 ≤ π)
+    (hv1 : so2InB v1 = true) (hv2 : so2InB v2 = true) (ht0 : 0 ≤ t) (ht1 : t ≤ 1) :
+    (0 ≤ (kleinInterp so2Interp so2Wrap u1 v1 u2 v2 t).1 ∧
+      (kleinInterp so2Interp so2Wrap u1 v1 u2 v2 t).1 ≤ π) ∧
+    so2InB (kleinInterp so2Interp so2Wrap u1 v1 u2 v2 t).2 = true := by
+  rw [so2InB_iff] at *
+  exact kleinInterp_inB hu1.1 hu1.2 hu2.1 hu2.2 hv1.1 hv1.2 hv2.1 hv2.2 ht0 ht1
+
+example : (0 ≤ (kleinInterp so2Interp so2Wrap 0 3 3 (-3) (1 / 3 : ℝ)).1 ∧
+      (kleinInterp so2Interp so2Wrap 0 3 3 (-3) (1 / 3 : ℝ)).1 ≤ π) ∧
+    so2InB (kleinInterp so2Interp so2Wrap 0 3 3 (-3) (1 / 3 : ℝ)).2 = true :=
+  klein_interp_inrange _ _ _ _ _ ⟨le_refl _, pi_pos.le⟩ ⟨by norm_num, pi_gt_three.le⟩
+    three_inB.1 three_inB.2 (by norm_num) (by norm_num)
+
+/-- [EX] Klein: t = 0 returns `from` exactly -/
+theorem klein_interp_zero (u1 v1 u2 v2 : ℝ) (hu1 : 0 ≤ u1 ∧ u1 ≤ π) (hv1 : so2InB v1 = true) :
+    kleinInterp so2Interp so2Wrap u1 v1 u2 v2 0 = (u1, v1) := by
+  rw [so2InB_iff] at hv1; exact kleinInterp_zero hu1.1 hu1.2 hv1.1 hv1.2
+
+example : kleinInterp so2Interp so2Wrap 0 3 3 (-3) (0 : ℝ) = (0, 3) :=
+  klein_interp_zero _ _ _ _ ⟨le_refl _, pi_pos.le⟩ three_inB.1
+
+/-- [EX] Klein: t = 1 returns `to` exactly when `0 < to.u < π` (for `to.u ∈ {0, π}` the seam branch
+returns the other representative `(π - u, mirrored v)` of the same point) -/
+theorem klein_interp_one (u1 v1 u2 v2 : ℝ) (hu2 : 0 < u2 ∧ u2 < π) (hv2 : so2InB v2 = true) :
+    kleinInterp so2Interp so2Wrap u1 v1 u2 v2 1 = (u2, v2) := by
+  rw [so2InB_iff] at hv2; exact kleinInterp_one hu2.1 hu2.2 hv2.1 hv2.2
+
+example : kleinInterp so2Interp so2Wrap 0 3 3 (-3) (1 : ℝ) = (3, -3) :=
+  klein_interp_one _ _ _ _ ⟨by norm_num, pi_gt_three⟩ three_inB.2
+
+/-- [EX] bounds for EVERY space of the fixed tree (arbitrarily nested): SO(3) components exactly unit,
+Klein components with `u ∈ [0, π]` -/
+theorem interp_inbounds_all (sp : Space ℝ) (a b : St ℝ) (t : ℝ)
+    (hwa : wellTyped sp a = true) (hwb : wellTyped sp b = true)
+    (hba : inBounds sp a = true) (hbb : inBounds sp b = true)
+    (hua : unitQuats sp a) (hub : unitQuats sp b) (hka : kleinRange sp a) (hkb : kleinRange sp b)
+    (ht0 : 0 ≤ t) (ht1 : t ≤ 1) :
+    inBounds sp (interpolate sp a b t) = true :=
+  interpolate_inBounds_all sp a b t hwa hwb hba hbb hua hub hka hkb ht0 ht1
+
+example : inBounds allSp (interpolate allSp allA allB (1 / 3)) = true :=
+  interp_inbounds_all _ _ _ _ allA_wt allB_wt allA_inB allB_inB allA_unit allB_unit
+    allA_klein allB_klein (by norm_num) (by norm_num)
 
 end OmplModel.Props.C07
